@@ -651,6 +651,19 @@ class ScriptGen:
             init_e = self.g_num(D, 1, counters=("i",))
             init = ("assign", a, Var("i"), init_e, [("i", Const(0), Const(n))], self.mode())
             D.add(a)
+            if t.chance(0.3, "mirror"):
+                # a second array filled right afterwards by a loop over the same range that reads the first one
+                # at other indices (mirrored, or its fixed last element): the two loops are no one loop
+                b2 = self.new_temp(D, ("arr", n), pool=ARR_POOL, allow_existing=False)
+                if b2 is not None:
+                    src = [Sub(a, Bin("-", Const(n - 1), Var("i"))), Sub(a, Const(n - 1)),
+                           Bin("+", Sub(a, Bin("-", Const(n - 1), Var("i"))), Sub(a, Const(0)))][t.draw(3, "mirrorform")]
+                    create2 = ("call", (b2,), Call("<builtin>array", [Const(n)]), self.mode())
+                    fill2 = ("assign", b2, Var("i"), src, [("i", Const(0), Const(n))], "o")
+                    D.add(b2)
+                    te = [Var("<t>"), Bin("+", Var("<t>"), Var("<dt>"))][t.draw(2, "mirt")]
+                    return [create, init, create2, fill2,
+                            ("yield", Var(b2), self.pick(COMPONENTS, "comp"), te, self.pick(TIME_IDS, "tid"), self.mode())]
             return [create, init]
         if k == 2:
             a = self.pick(self.arrs(D), "sa")
